@@ -1236,4 +1236,155 @@ theorem killLoop_separate (nm : Names) : ∀ (n : Nat) (args : List Str) (st : K
               · rw [hw]; rfl
               · rw [hw]; simp only [contK, Bool.false_eq_true, if_false]; rw [ihr rest st'' (Nat.le_refl _)]
 
+/-! ### `separateSO` really separates -/
+
+/-- after one cluster: skip the name of a pending `-o` -/
+def afterSO (next : List Str → Bool) (pending : Bool) (tail : List Str) : Bool :=
+  if pending then
+    (match tail with
+     | [] => true
+     | _ :: t' => next t')
+  else next tail
+
+/-- In option position every cluster is a single letter (or contains its own sign as a letter, which
+    cannot be split off); `-o` / `+o` is followed by its name as an argument of its own; and, where
+    long options are rewritten (`long = true`: set), no `--name` / `++name` is left. -/
+def isSeparatedSO (long : Bool) : List Str → Bool
+  | [] => true
+  | a :: rest =>
+    match shortSign a with
+    | some neg =>
+      if (a.drop 1).contains (signChar neg) then
+        (if (splitCluster (signChar neg) (a.drop 1)).2 then
+          (match rest with
+           | [] => true
+           | _ :: rest' => isSeparatedSO long rest')
+         else isSeparatedSO long rest)
+      else if (a.drop 2).isEmpty then
+        (if a.drop 1 = ['o'] then
+          (match rest with
+           | [] => true
+           | _ :: rest' => isSeparatedSO long rest')
+         else isSeparatedSO long rest)
+      else false
+    | none => if long then (longForm a).isNone else true
+
+theorem isSeparatedSO_single (long : Bool) (neg : Bool) (c : Char) (rest : List Str) (hc : c ≠ signChar neg) :
+    isSeparatedSO long ([signChar neg, c] :: rest) =
+      afterSO (isSeparatedSO long) (c == 'o') rest := by
+  conv => lhs; unfold isSeparatedSO
+  have hs := shortSign_single neg c [] hc
+  have h2 : ([c] : Str).contains (signChar neg) = false := by simp; exact fun h => hc h.symm
+  simp only [hs, List.drop_succ_cons, List.drop_zero, h2, Bool.false_eq_true, if_false, List.isEmpty_nil, if_true,
+    afterSO]
+  by_cases ho : c = 'o'
+  · subst ho; simp
+  · have : ([c] : Str) ≠ ['o'] := by intro h; cases h; exact ho rfl
+    simp [this, ho]
+
+theorem splitCluster_parts_separated (long : Bool) (neg : Bool) : ∀ (cs : Str) (tail : List Str), signChar neg ∉ cs →
+    isSeparatedSO long ((splitCluster (signChar neg) cs).1 ++ tail) =
+      afterSO (isSeparatedSO long) (splitCluster (signChar neg) cs).2 tail := by
+  intro cs
+  induction cs with
+  | nil => intro tail _; simp [splitCluster, afterSO]
+  | cons c cs ih =>
+    intro tail hd
+    have hc : c ≠ signChar neg := fun h => hd (by simp [h])
+    have hcs : signChar neg ∉ cs := fun h => hd (by simp [h])
+    rw [splitCluster_cons]
+    by_cases ho : c = 'o'
+    · subst ho
+      simp only [if_true]
+      cases cs with
+      | nil =>
+        simp only [List.isEmpty_nil, if_true, List.singleton_append]
+        rw [isSeparatedSO_single long neg 'o' tail hc]; simp
+      | cons r0 cs' =>
+        simp only [List.isEmpty_cons, Bool.false_eq_true, if_false, List.cons_append, List.nil_append]
+        rw [isSeparatedSO_single long neg 'o' _ hc]; simp [afterSO]
+    · simp only [ho, if_false, List.cons_append]
+      rw [isSeparatedSO_single long neg c _ hc]
+      have : (c == 'o') = false := by simp [ho]
+      simp only [this, afterSO, Bool.false_eq_true, if_false]
+      rw [ih tail hcs]; rfl
+
+theorem separateSO_isSeparated (long : Bool) : ∀ (n : Nat) (args : List Str), args.length ≤ n →
+    isSeparatedSO long (separateSO long args) = true := by
+  intro n
+  induction n with
+  | zero =>
+    intro args hl
+    have : args = [] := List.eq_nil_of_length_eq_zero (Nat.le_zero.mp hl)
+    subst this; rfl
+  | succ n ih =>
+    intro args hl
+    cases args with
+    | nil => rfl
+    | cons a rest =>
+      unfold separateSO
+      cases hs : shortSign a with
+      | some neg =>
+        obtain ⟨c, cs, rfl, hc⟩ := shortSign_cases a neg hs
+        simp only [List.drop_succ_cons, List.drop_zero]
+        have key : ∀ tail, isSeparatedSO long ((if (c :: cs).contains (signChar neg) then
+                ([signChar neg :: c :: cs], (splitCluster (signChar neg) (c :: cs)).2)
+              else splitCluster (signChar neg) (c :: cs)).1 ++ tail) =
+            afterSO (isSeparatedSO long) (splitCluster (signChar neg) (c :: cs)).2 tail := by
+          intro tail
+          by_cases hk : (c :: cs).contains (signChar neg) = true
+          · simp only [hk, if_true, List.singleton_append]
+            conv => lhs; unfold isSeparatedSO
+            simp only [hs, List.drop_succ_cons, List.drop_zero, hk, if_true, afterSO]
+          · simp only [hk]
+            exact splitCluster_parts_separated long neg (c :: cs) tail (by simpa using hk)
+        have hpend : (if (c :: cs).contains (signChar neg) then
+                ([signChar neg :: c :: cs], (splitCluster (signChar neg) (c :: cs)).2)
+              else splitCluster (signChar neg) (c :: cs)).2 = (splitCluster (signChar neg) (c :: cs)).2 := by
+          split <;> rfl
+        generalize (if (c :: cs).contains (signChar neg) then
+                ([signChar neg :: c :: cs], (splitCluster (signChar neg) (c :: cs)).2)
+              else splitCluster (signChar neg) (c :: cs)) = X at key hpend
+        obtain ⟨parts, pending⟩ := X
+        simp only at key hpend
+        subst hpend
+        cases hp : (splitCluster (signChar neg) (c :: cs)).2 with
+        | true =>
+          simp only [if_true]
+          cases rest with
+          | nil =>
+            have := key []
+            rw [List.append_nil] at this
+            rw [this, hp]; rfl
+          | cons x rest' =>
+            simp only []
+            rw [key, hp]
+            simp only [afterSO, if_true]
+            exact ih rest' (by simp at hl; omega)
+        | false =>
+          simp only [Bool.false_eq_true, if_false]
+          rw [key, hp]
+          simp only [afterSO, Bool.false_eq_true, if_false]
+          exact ih rest (by simp at hl; omega)
+      | none =>
+        simp only []
+        cases long with
+        | false =>
+          simp only [Bool.false_eq_true, if_false]
+          conv => lhs; unfold isSeparatedSO
+          simp [hs]
+        | true =>
+          simp only [if_true]
+          cases hlf : longForm a with
+          | none =>
+            simp only []
+            conv => lhs; unfold isSeparatedSO
+            simp [hs, hlf]
+          | some q =>
+            obtain ⟨neg, name⟩ := q
+            simp only []
+            rw [isSeparatedSO_single true neg 'o' _ (signChar_ne_o neg)]
+            simp only [beq_self_eq_true, afterSO, if_true]
+            exact ih rest (by simp at hl; omega)
+
 end YashModel.Args.Bespoke
